@@ -819,7 +819,26 @@ def oracle_c19(inp, out):
     return None
 
 
-ORACLES = {"C03_float": oracle_c03, "C05_float": oracle_c05, "C19_float": oracle_c19,
+def oracle_c09(inp, out):
+    """symbols outside 0..n-1 are impossible under every representation of the float-built model
+    (eager table and lazy model): the encoder answers None, never some other symbol's interval"""
+    r, msg = _parse_or_msg(inp, out)
+    if msg:
+        return msg if out and out[0] in (-999998, -999997) else None
+    c = r["c"]
+    n = c["n"]
+    for key in ("E", "L"):
+        d = r.get(key)
+        if not d or d["status"] != 0 or "enc" not in d:
+            continue
+        for s, x in zip(c["syms"], d["enc"]):
+            if s >= n and x is not None:
+                return "%s model of %d symbols: symbol %d outside the support got %r" % (
+                    "eager" if key == "E" else "lazy", n, s, x)
+    return None
+
+
+ORACLES = {"C09": oracle_c09, "C03_float": oracle_c03, "C05_float": oracle_c05, "C19_float": oracle_c19,
            "C03": oracle_c03, "C05": oracle_c05, "C19": oracle_c19}
 
 
